@@ -661,7 +661,41 @@ class Executor:
         self.stats['queries'] += 1; self.stats['solver_s'] += dt
         if r == z3.sat: self.stats['sat'] += 1; return 'sat', m
         if r == z3.unsat: self.stats['unsat'] += 1; return 'unsat', None
+        # z3 gave up (typically multiply/divide/remainder by constants): second back end, cvc5 with integer blasting
+        t0 = time.time()
+        r2, m2 = self.cvc5_check(st.pc + [extra])
+        self.stats['solver_s'] += time.time() - t0
+        self.stats['cvc5_queries'] = self.stats.get('cvc5_queries', 0) + 1
+        if r2 == 'sat': self.stats['sat'] += 1; return 'sat', m2
+        if r2 == 'unsat': self.stats['unsat'] += 1; return 'unsat', None
         self.stats['unknown'] += 1
+        return 'unknown', None
+
+    def cvc5_check(self, constraints):
+        import subprocess, tempfile, re as _re
+        s = z3.Solver(); s.add(*constraints)
+        text = s.to_smt2()
+        for op in ('bvsrem', 'bvsdiv', 'bvudiv', 'bvurem', 'bvsmod'): text = text.replace(op + '_i', op)
+        text = '(set-option :produce-models true)\n(set-logic ALL)\n' + text + '\n(get-model)\n'
+        with tempfile.NamedTemporaryFile('w', suffix='.smt2', delete=False, dir=os.environ.get('VERIF_TMP', None)) as f:
+            f.write(text); path = f.name
+        try:
+            p = subprocess.run(['cvc5', '--solve-bv-as-int=sum', '--tlimit=%d' % max(self.timeout_ms, 60000), path],
+                               stdout=subprocess.PIPE, stderr=subprocess.STDOUT, timeout=max(self.timeout_ms, 60000) / 1000 + 30)
+            out = p.stdout.decode('utf-8', 'replace')
+        except Exception:
+            out = ''
+        finally:
+            try: os.remove(path)
+            except OSError: pass
+        first = out.strip().split('\n')[0].strip() if out.strip() else ''
+        if first == 'unsat': return 'unsat', None      # (the trailing get-model then reports an error, which is expected)
+        if '(error' in out: return 'unknown', None
+        if first == 'sat':
+            vals = {}
+            for m in _re.finditer(r'\(define-fun\s+(\S+)\s+\(\)\s+\(_ BitVec (\d+)\)\s+#([xb])([0-9a-fA-F]+)\)', out):
+                vals[m.group(1).strip('|')] = (int(m.group(4), 16 if m.group(3) == 'x' else 2), int(m.group(2)))
+            return 'sat', _DictModel(vals)
         return 'unknown', None
 
     def model_of(self, st):
@@ -1187,10 +1221,12 @@ class Executor:
             return
         if forced:
             real = [c for c in cand if c[1] in ('run', 'ready')]
+            y = st.ghost.pop('yielder', None)
+            if y is not None and len(real) > 1: real = [c for c in real if c[0] != y]      # a yielding thread lets another one run
             injected = [c for c in cand if c[1] not in ('run', 'ready')]
             # time only passes / spurious wake-ups only matter when chosen: free when nothing else can run, else they cost a preemption
             choices = list(real)
-            if not real: choices = [c for c in injected if c[1] == 'timeout'] or injected
+            if not real: choices = [c for c in injected if c[1] == 'timeout']      # time may pass; a spurious wake-up must never be what rescues a lost wake-up
             elif st.preempt < self.preempt_bound: choices += injected
             if not choices:
                 if all(t.status == 'done' for t in st.threads): raise PathEnd('done-all')
@@ -1220,6 +1256,27 @@ class Executor:
         st.cur = tid
 
 def sgn64(v): return v - (1 << 64) if v >> 63 else v
+
+class _DictModel:
+    """model returned by the cvc5 back end: name -> value; evaluation by substitution"""
+    def __init__(self, vals): self.vals = vals
+    def eval(self, t, completion=True):
+        acc = set(); _vars_of(t, acc, set())
+        sub = []
+        stack = [t]; seen = set(); consts = {}
+        while stack:
+            x = stack.pop()
+            if x.get_id() in seen: continue
+            seen.add(x.get_id())
+            if z3.is_const(x) and x.decl().kind() == z3.Z3_OP_UNINTERPRETED: consts[x.decl().name()] = x
+            else: stack.extend(x.children())
+        for name, c in consts.items():
+            if z3.is_bv(c):
+                v = self.vals.get(name, (0, c.size()))[0]
+                sub.append((c, z3.BitVecVal(v, c.size())))
+            elif z3.is_bool(c):
+                sub.append((c, z3.BoolVal(False)))
+        return z3.simplify(z3.substitute(t, *sub)) if sub else z3.simplify(t)
 CTOR = 'ctor-frame'
 
 def _deepcopy(v):
